@@ -591,7 +591,7 @@ impl Check for LiveDepositSlippage {
             pw.reversed_msgs = d.reversed;
             let r = pw.provide_exec(&usr, [d0, d1], t.map(Decimal::new_from_u128_atomics), None);
             pw.reversed_msgs = false;
-            let slippage_err = r.as_ref().err().map(|e| e.contains("lippage")).unwrap_or(false);
+            let slippage_err = r.as_ref().err().map(|e| e.contains("Slippage tolerance exceeded")).unwrap_or(false);
             let one_to_one = p[0] == p[1];
             let Some(t) = t else {
                 ensure!(!slippage_err, "step {step}: a deposit without a slippage tolerance was rejected for slippage (deposit [{d0}, {d1}], reserves {p:?})");
@@ -803,6 +803,186 @@ impl Check for LiveSpread {
             }
         }
         if acc >= 1 && rej >= 1 {
+            rec.nontrivial(hash_of(c));
+            rec.sample(c);
+        }
+        Ok(())
+    }
+}
+
+// ---------------------------------------------------------------------------------------------
+// live deposits with a slippage tolerance (stableswap pair and three-asset pool)
+// ---------------------------------------------------------------------------------------------
+
+#[derive(Clone, Debug, Serialize, Deserialize)]
+pub struct StableDeposit {
+    pub user: u8,
+    /// k/4096 of each reserve, per asset (skewed deposits move the minted amount away from pro-rata)
+    pub k: [u16; 3],
+    pub tolerance_atomics: Option<Uint128>,
+    pub order: u8,
+}
+
+#[derive(Clone, Debug, Serialize, Deserialize)]
+pub struct StableDepositCase {
+    pub trio: bool,
+    pub cw20: [bool; 3],
+    pub amp: u64,
+    pub fees: [Uint128; 3],
+    pub init: [Uint128; 3],
+    pub deposits: Vec<StableDeposit>,
+}
+
+pub struct LiveDepositSlippageStable;
+
+impl Check for LiveDepositSlippageStable {
+    type Case = StableDepositCase;
+    fn name(&self) -> &'static str {
+        "live_deposit_slippage_tolerance_stableswap"
+    }
+    fn rule(&self) -> &'static str {
+        "stableswap pair or three-asset pool (native/cw20 kinds, amp 1..10^4) with an initial, possibly unbalanced deposit; then 1..6 ProvideLiquidity messages depositing k/4096 of each reserve per asset (balanced, skewed, nearly one-sided) with a slippage tolerance in {None, 0, 1e-18, 0.1%, 1%, 50%, 1, random}, assets listed in any order. Reference: the documented rule (pool ratio = sum of reserves / LP supply, deposit ratio = sum of deposits / LP minted; reject iff pool ratio x (1 - t) > deposit ratio) evaluated in exact rationals from the reported reserves and the LP actually minted, with the three-way 18-decimal band. An accepted deposit must not be MustReject; a deposit rejected for slippage is re-executed without a tolerance in the same state and must not turn out MustAccept. Non-trivial: a forced verdict was exercised."
+    }
+    fn strategy(&self, _tier: Tier) -> BoxedStrategy<StableDepositCase> {
+        let tol = prop_oneof![
+            1 => Just(None),
+            2 => Just(Some(0u128)),
+            1 => Just(Some(1u128)),
+            2 => Just(Some(1_000_000_000_000_000u128)),
+            2 => Just(Some(DEFAULT)),
+            1 => Just(Some(HALF)),
+            1 => Just(Some(E18)),
+            3 => (0u128..E18 / 50).prop_map(Some),
+        ];
+        let dep = (0u8..4, [1u16..4096, 0u16..4096, 0u16..4096], tol, 0u8..6)
+            .prop_map(|(user, k, t, order)| StableDeposit { user, k, tolerance_atomics: t.map(Uint128::new), order });
+        (
+            any::<bool>(),
+            any::<[bool; 3]>(),
+            prop_oneof![Just(1u64), Just(100), 1u64..10_000],
+            gen::small_fee_triple(),
+            gen::log_uniform(10_000_000, 1u128 << 60),
+            [0u32..4, 0u32..4],
+            prop::collection::vec(dep, 1..6),
+        )
+            .prop_map(|(trio, cw20, amp, f, base, sh, deposits)| StableDepositCase {
+                trio,
+                cw20,
+                amp,
+                fees: [Uint128::new(f[0]), Uint128::new(f[1]), Uint128::new(f[2])],
+                init: [Uint128::new(base), Uint128::new((base >> sh[0]).max(10_000_000)), Uint128::new((base >> sh[1]).max(10_000_000))],
+                deposits,
+            })
+            .boxed()
+    }
+    fn cases(&self, tier: Tier) -> u32 {
+        tier.pick(8_000, 500_000)
+    }
+    fn min_nontrivial(&self) -> f64 {
+        0.05
+    }
+    fn test(&self, c: &StableDepositCase, rec: &Rec) -> TResult {
+        use crate::pools::{TrioCfg, TrioWorld};
+        enum P {
+            Pair(PairWorld),
+            Trio(TrioWorld),
+        }
+        let n = if c.trio { 3 } else { 2 };
+        let mut p = if c.trio {
+            P::Trio(TrioWorld::build(&TrioCfg { cw20: c.cw20, decimals: [6, 6, 6], fees: c.fees, amp: c.amp }).map_err(|e| Fail::new(format!("world build failed: {e}")))?)
+        } else {
+            P::Pair(PairWorld::build(&PairCfg { cw20: [c.cw20[0], c.cw20[1]], decimals: [6, 6], fees: c.fees, amp: Some(c.amp) }).map_err(|e| Fail::new(format!("world build failed: {e}")))?)
+        };
+        let init = [c.init[0].u128(), c.init[1].u128(), c.init[2].u128()];
+        let ok = match &mut p {
+            P::Pair(pw) => {
+                let u0 = pw.user(0);
+                pw.provide(&u0, [init[0], init[1]], None, None).is_ok()
+            }
+            P::Trio(tw) => {
+                let u0 = tw.user(0);
+                tw.provide(&u0, init, None, None).is_ok()
+            }
+        };
+        if !ok {
+            rec.class("init_rejected");
+            return Ok(());
+        }
+        let mut forced = false;
+        for (step, d) in c.deposits.iter().enumerate() {
+            let (reserves, supply) = match &p {
+                P::Pair(pw) => {
+                    let v = pw.view().map_err(Fail::new)?;
+                    (v.reserves.clone(), v.total_share)
+                }
+                P::Trio(tw) => {
+                    let v = tw.view().map_err(Fail::new)?;
+                    (v.reserves.clone(), v.total_share)
+                }
+            };
+            let amounts: Vec<u128> = (0..n).map(|i| (u(reserves[i]) * u(d.k[i] as u128) / u(4096)).try_into().unwrap_or(0u128)).collect();
+            if amounts.iter().all(|a| *a == 0) || supply == 0 {
+                continue;
+            }
+            let t = d.tolerance_atomics.map(|t| t.u128());
+            let tol = t.map(Decimal::new_from_u128_atomics);
+            let sp: U = reserves.iter().take(n).fold(U::ZERO, |a, x| a + u(*x));
+            let sd: U = amounts.iter().fold(U::ZERO, |a, x| a + u(*x));
+            // one attempt with the tolerance; on a slippage rejection, a second one without it
+            let mut attempt = |p: &mut P, tol: Option<Decimal>| -> (Result<(), String>, u128) {
+                match p {
+                    P::Pair(pw) => {
+                        let usr = pw.user(d.user);
+                        let lp0 = pw.lp_balance(&usr);
+                        pw.reversed_msgs = d.order % 2 == 1;
+                        let r = pw.provide(&usr, [amounts[0], amounts[1]], tol, None).map(|_| ());
+                        pw.reversed_msgs = false;
+                        (r, pw.lp_balance(&usr) - lp0)
+                    }
+                    P::Trio(tw) => {
+                        let usr = tw.user(d.user);
+                        let lp0 = tw.lp_balance(&usr);
+                        tw.msg_order = [[0, 1, 2], [0, 2, 1], [1, 0, 2], [1, 2, 0], [2, 0, 1], [2, 1, 0]][(d.order % 6) as usize];
+                        let r = tw.provide(&usr, [amounts[0], amounts[1], amounts[2]], tol, None).map(|_| ());
+                        tw.msg_order = [0, 1, 2];
+                        (r, tw.lp_balance(&usr) - lp0)
+                    }
+                }
+            };
+            let (r, minted) = attempt(&mut p, tol);
+            match (&r, t) {
+                (Ok(()), Some(t)) if t <= E18 && minted > 0 => {
+                    let v = ratio_verdict(sp, u(supply), sd, u(minted), t);
+                    rec.class("deposit_with_tolerance_accepted");
+                    if v != Verdict::Either {
+                        forced = true;
+                    }
+                    ensure!(
+                        v != Verdict::MustReject,
+                        "step {step}: deposit {amounts:?} into reserves {reserves:?} (supply {supply}) minted {minted} and was accepted with tolerance {t}, but pool ratio x (1 - t) exceeds the deposit ratio"
+                    );
+                }
+                (Err(e), Some(t)) if t <= E18 && e.contains("Slippage tolerance exceeded") => {
+                    rec.class("deposit_rejected_for_slippage");
+                    let (r2, minted2) = attempt(&mut p, None);
+                    if r2.is_ok() && minted2 > 0 {
+                        let v = ratio_verdict(sp, u(supply), sd, u(minted2), t);
+                        if v != Verdict::Either {
+                            forced = true;
+                        }
+                        ensure!(
+                            v != Verdict::MustAccept,
+                            "step {step}: deposit {amounts:?} into reserves {reserves:?} (supply {supply}) mints {minted2} and is within tolerance {t}, but it was rejected for slippage"
+                        );
+                    }
+                }
+                (Err(e), None) => {
+                    ensure!(!e.contains("Slippage tolerance exceeded"), "step {step}: a deposit without a tolerance was rejected for slippage");
+                }
+                _ => rec.class("other"),
+            }
+        }
+        if forced {
             rec.nontrivial(hash_of(c));
             rec.sample(c);
         }
@@ -1104,6 +1284,7 @@ pub fn property() -> Property {
             Box::new(LiveSpread),
             Box::new(LiveDepositSlippage),
             Box::new(LiveSpreadTrio),
+            Box::new(LiveDepositSlippageStable),
             Box::new(RouterMinimumReceive),
         ],
         assumptions: vec![
